@@ -45,7 +45,12 @@ EXES = {
     "rset": 'r.set@2("k");',
     "useout": "for i in 1 to 3 loop out.concat(i * i); end loop; print out.count() out.at(2);",
 }
-BAD = {"syn": "a = ;", "eof": "a = (1 +", "undef": "zz9 = nosuch + 1;", "str": 'a = "unterminated;', "deep": "for i in 1 to 2 loop a = ; end loop;"}
+BAD = {"syn": "a = ;", "eof": "a = (1 +", "undef": "zz9 = nosuch + 1;", "str": 'a = "unterminated;', "deep": "for i in 1 to 2 loop a = ; end loop;",
+       # the error inside every kind of block (each has its own clean-up path)
+       "deepw": "while a < 0 loop a = ; end loop;", "deepfa": "forall e9 in tab(1, 1) loop a = ; end loop;", "deepif": "if a > 0 then a = ; end if;",
+       "deepelse": "if a > 0 then a = 1; else a = ; end if;", "deepb": "begin a = ; exception when others then a = 1; end;",
+       "deeph": "begin a = 1; exception when others then a = ; end;", "deepfn": "function g9() return integer is begin a9 = ; return 1; end;",
+       "deepnest": "for i in 1 to 2 loop while a < 0 loop if a > 0 then a = ; end if; end loop; end loop;", "emptyw": "while a < 0 loop end loop;"}
 EXPRS = {"add": "a + 1", "str": 'b + "?"', "div": "1 / (a - a)", "tab": "tab(2, a)", "tup": "tup(a, b)", "const": "40 + 2"}
 BADEXPR = {"syn": "a +", "undef": "nosuch * 2"}
 
